@@ -17,6 +17,7 @@ package oracle
 import (
 	"bytes"
 	"encoding/hex"
+	"encoding/json"
 	"fmt"
 	"sort"
 	"strconv"
@@ -789,6 +790,38 @@ func checkNestedCompPack(rep *Reporter, specS, valS string) {
 
 // checkCompRepack: Pack, UnsetSubfield(drop), Pack again on ONE composite object gives the
 // bytes a fresh composite holding the remaining subfields packs to.
+// compRepackSweep: n random bitmapped composites, packed, one subfield unset (by path), packed again
+func compRepackSweep(rep *Reporter, r *gen.Rng, n int) {
+	for i := 0; i < n; i++ {
+		c := compCfg{bl: gen.Pick(r, []int{1, 2, 3, 4, 8}), enc: gen.Pick(r, bitmapEncs)}
+		B := effLen(c.bl) * 8
+		used := map[int]bool{}
+		for k := 2 + r.Intn(4); k > 0; k-- {
+			id := 1 + r.Intn(B)
+			if !used[id] {
+				used[id] = true
+				c.ids = append(c.ids, id)
+			}
+		}
+		sort.Ints(c.ids)
+		content := map[int]string{}
+		for _, id := range c.ids {
+			if r.Intn(4) != 0 {
+				content[id] = string(r.From([]byte("ABCxyz019"), 1+r.Intn(4)))
+			}
+		}
+		var ids []int
+		for id := range content {
+			ids = append(ids, id)
+		}
+		sort.Ints(ids)
+		if len(ids) < 2 {
+			continue
+		}
+		checkCompRepack(rep, c, content, ids[r.Intn(len(ids))])
+	}
+}
+
 func checkCompRepack(rep *Reporter, c compCfg, content map[int]string, drop int) {
 	specT := c.specTree()
 	line := fmt.Sprintf("HC05 %s %s unset:%d", specT.String(), compValueTree(content).String(), drop)
@@ -907,7 +940,7 @@ func parseHist(line string) (msgCfg, []histOp, bool) {
 					o.wire[id] = e[1]
 				}
 			}
-		case "pack":
+		case "pack", "json":
 		default:
 			return c, nil, false
 		}
@@ -995,6 +1028,13 @@ func checkHistory(rep *Reporter, c msgCfg, ops []histOp) {
 				state = map[int]string{}
 				for id, v := range o.wire {
 					state[id] = v
+				}
+			case "json":
+				// the message reloaded from its own JSON document (key "1", the bitmap, included): same content
+				if js, err := json.Marshal(m); err == nil {
+					if err := json.Unmarshal(js, m); err != nil {
+						return
+					}
 				}
 			case "pack":
 				packed, err := m.Pack()
@@ -1159,7 +1199,11 @@ func genHistory(r *gen.Rng, c msgCfg, steps int) []histOp {
 			}
 			ops = append(ops, histOp{op: "unpack", wire: w})
 		default:
-			ops = append(ops, histOp{op: "pack"})
+			if r.Intn(4) == 0 {
+				ops = append(ops, histOp{op: "json"})
+			} else {
+				ops = append(ops, histOp{op: "pack"})
+			}
 		}
 	}
 	ops = append(ops, histOp{op: "pack"})
